@@ -62,3 +62,8 @@ PROPS['C11']['explanation'] += (' LEDGERS WITH SCHEMAS (C11_roundtrip_schemas, L
 PROPS['C12']['explanation'] += (' The model separates the ledger ROW state from the state CACHED by the facade a request goes through (Import.v: i_l / i_c): handleState and BeginTX branch on the cache, Import on the row re-read under the '
                                 'lock; C12_row_decides / C12_after_write_rejected quantify over the cached value, C12_coherent keeps the cache from running ahead of the row. The tie drives a second, stale facade (resolved before another '
                                 'request\'s first write) through Import with log ids above the stored ones (the seeded change N-C12, which tests the stale snapshot, is reported as [c12-import-after-single-write] / [c12-import-after-bulk-write]).')
+
+HTTP_RT_NOTE = (' HTTP round trip: on every case whose full export is imported into the pristine copy, the export is also fetched through POST /v2/l1/logs/export (must equal the '
+                'controller\'s stream byte for byte) and sent to POST /v2/l3/logs/import of a third pristine ledger, whose complete snapshot must equal the copy imported through the controller '
+                '(monitors [c11-http-export], [c11-http-import], [c11-http-import-differs]; internal/api/v2/controllers_logs_export.go / controllers_logs_import.go).')
+PROPS['C11']['explanation'] += HTTP_RT_NOTE
